@@ -33,7 +33,7 @@ pub fn all_incs(m: usize, p: usize) -> Vec<[[bool; 3]; 3]> {
 /// generating nonlinear parameters and coefficients of a family
 pub fn truth(fam: &Family) -> (Vec<f64>, Vec<f64>) {
     match fam {
-        Family::Exp1Off => (vec![1.25], vec![2.0, 0.5]),
+        Family::Exp1Off | Family::GuardExp => (vec![1.25], vec![2.0, 0.5]),
         Family::Exp2Off => (vec![0.75, 3.0], vec![1.5, 2.5, 0.25]),
         Family::Exp3 => (vec![0.5, 1.75, 6.0], vec![1.0, 2.0, 1.5]),
         Family::GaussDecayOff => (vec![2.0, 0.625, 1.5], vec![1.25, 2.0, 0.5]),
@@ -48,7 +48,7 @@ pub fn truth(fam: &Family) -> (Vec<f64>, Vec<f64>) {
 
 pub fn xgrid(fam: &Family, n: usize) -> Vec<f64> {
     match fam {
-        Family::Exp1Off | Family::Exp2Off | Family::Exp3 | Family::ExpN(_) => linspace(0.0, 6.0, n),
+        Family::Exp1Off | Family::GuardExp | Family::Exp2Off | Family::Exp3 | Family::ExpN(_) => linspace(0.0, 6.0, n),
         Family::GaussDecayOff => linspace(0.0, 5.0, n),
         Family::OLeary => linspace(0.0, 1.5, n),
         Family::Perm4 => linspace(0.0, 3.0, n),
